@@ -152,4 +152,32 @@ theorem listen_oversize (p : Parser) (whole : Bytes)
       exact ih hne' (buf ++ r) hs' hlt
     · simp only [hlt, if_false]
 
+/-- reads that leave the codec waiting can be continued: the later reads are handled from the
+buffer the earlier ones left -/
+theorem listen_append_of_starved (p : Parser) (reads more : List Bytes) (buf b : Bytes)
+    (h : listenWaiting p buf reads = .starved b) :
+    listenWaiting p buf (reads ++ more) = listenWaiting p b more := by
+  induction reads generalizing buf with
+  | nil =>
+    simp only [listenWaiting] at h
+    injection h with h
+    simp [h]
+  | cons r rs ih =>
+    rw [List.cons_append, listenWaiting]
+    rw [listenWaiting] at h
+    by_cases hre : r.isEmpty = true
+    · simp [hre] at h
+    · have hre' : r.isEmpty = false := by simpa using hre
+      simp only [hre', Bool.false_eq_true, if_false] at h ⊢
+      cases hpar : p.parse (buf ++ r) with
+      | complete idx => simp [hpar] at h
+      | error => simp [hpar] at h
+      | incomplete =>
+        simp only [hpar] at h ⊢
+        by_cases hl : (buf ++ r).length < headCap
+        · simp only [hl, if_true] at h ⊢
+          exact ih _ h
+        · rw [if_neg hl] at h
+          cases h
+
 end TT.H1
